@@ -6,3 +6,38 @@ check('C15', 'fault_enumeration',
       'sequences and optimiser traces use real files. Values only at the alphabet points.',
       'bounded exhaustive history enumeration + crash-point/torn-write enumeration on the implementation, reference-model oracle',
       'DESIGN.md section 4, C15')
+check('C01', 'exploration',
+      'Every (parent operator, operand slot, child operator) triple of the expression language (37 parent kinds x all slots x 43 child kinds, 2 filler rotations, 2 parameter points, all rows), '
+      'sharing variants, side-by-side dictionaries through BIOGEME.simulate, the pure-Python evaluator and the no-database engine path on variable-free variants, and (thorough) all 1.4 million '
+      'trees of depth <= 2 plus all depth-3 chains are evaluated on the real engine and compared with a plain-Python reference semantics.',
+      'Values only at the alphabet grid; regular domain only (rows outside it, on fragile branches or ill-conditioned are excluded and counted); the engine is exercised, not trusted: its normal-CDF upper-tail defect is a recorded finding.',
+      'bounded exhaustive enumeration of expression trees on the implementation vs reference semantics', 'DESIGN.md section 4, C01')
+check('C02', 'exploration',
+      'Every differentiable (parent, slot, child) triple x 2 rotations x 2 parameter points x 10 call forms (per-row / aggregated / flag combinations / named / create_function / '
+      'create_objective_function / BIOGEME with and without scaling), finite-difference helpers on a pool, no-database derivatives and the engine\'s refusal of non-differentiable nodes '
+      'are executed on the real engine and compared with exact hyper-dual derivatives of the reference semantics; BHHH and aggregation identities are checked on every case.',
+      'Derivatives at grid points; non-differentiable points excluded by rule and counted; tolerance rel 1e-8. The engine\'s PowerConstant(2) Hessian defect is identified exactly (by mimicking it) and recorded as a known finding.',
+      'bounded exhaustive enumeration of differentiable expression trees x call forms vs hyper-dual reference derivatives', 'DESIGN.md section 4, C02')
+check('C03', 'exploration',
+      'For 4 model skeletons, all 60 injective renamings of their parameters into a 5-name pool x all term orders x status assignments (free / bounded / fixed) x all 8 partial dictionaries: '
+      'log likelihood, gradient by name, bounds by name and position, simulation and partial-dictionary evaluation are mapped back through the bijection and compared with the reference of the '
+      'original skeleton; estimations under renamings must attach each estimate, bound and table row to the right name; all 10 kind pairs sharing one name must be refused at 2 entry points.',
+      'Estimates compared up to optimiser tolerance on strictly concave problems; a dictionary naming a fixed parameter is expected not to change it.',
+      'bounded exhaustive enumeration of renamings x orders x statuses x dictionaries with a differential oracle', 'DESIGN.md section 4, C03')
+check('C04', 'exploration',
+      'For 2 models x 3 weight variants x subsets of a 6-row pool: all row permutations x all thread counts 1..N+2 and 0 (every static row partition the engine can form) x 2 parameter points, '
+      'and all two-part splits; on each, LL = sum w_i simulate_i = reference, scaled = LL/N, and gradient / Hessian / BHHH aggregate with the same weights and are invariant.',
+      'Thread interleavings inside the pre-built engine are not controllable: the partition shapes are enumerated and the engine\'s threads are assumed to write disjoint memory.',
+      'bounded exhaustive enumeration of tables x permutations x thread counts x splits x weights vs per-row reference', 'DESIGN.md section 4, C04 and section 5')
+check('C09', 'exploration',
+      'For every panel composition (1-3 individuals, 1-3 rows each, ids assigned in every order) every permutation of the rows is generated: contiguous ones must yield, per individual matched by id, '
+      'the reference product over exactly its rows (mean over draws of the product with one draw series per individual inside MonteCarlo) through get_value_c, calculate_likelihood and simulate; '
+      'non-contiguous ones must be refused; the individual map must partition the rows into contiguous blocks and draws must be dimensioned by individuals.',
+      'Deterministic user-defined draw generators; values at grid points.',
+      'bounded exhaustive enumeration of panel tables and row permutations vs a product / mean-of-products reference', 'DESIGN.md section 4, C09')
+check('C10', 'exploration',
+      'All ordered selections of 1-3 draw variables of different user-defined types (names whose sorted, appearance and type orders all differ) x 5 integrands x R x N x 2 parameter points: the Monte-Carlo value must be '
+      'the mean over each variable\'s own logged series and the draw table must be [obs, draw, variable-by-sorted-name]; all 21 native types in pairs (value = mean over the exposed table), seeds (two fresh processes per (type, seed)), '
+      'refusals (unknown type, reserved names, wrong shape); Integrate against closed forms; Derive against hyper-dual derivatives.',
+      'Integrals at tolerance 1e-6 for smooth normally-decaying integrands; Derive only with respect to names present in the formula.',
+      'bounded exhaustive enumeration of integrands x draw-variable sets x R x N vs mean over logged series', 'DESIGN.md section 4, C10')
